@@ -49,7 +49,7 @@ OkRet == /\ phase = "running"
             ELSE IF stopped # 0 THEN rc = stopped
             ELSE \/ rc = 0
                  \/ /\ rc \in Defined
-                    /\ (valid = 1 => (nerr >= 1 \/ rc \in {MEMORY_ERROR, ERROR}))
+                    /\ (valid = 1 => (nerr >= 1 \/ rc = MEMORY_ERROR))     \* resource exhaustion aside; the harness reads from memory, so there is no I/O failure to set aside
 \* an aborted parse may leave a loop whose packets were never read: walking / writing then reports CIF_EMPTY_LOOP
 OkPost == /\ phase = "returned"
           /\ Ev.walk \in (IF lastrc = 0 THEN {0} ELSE {0, 36})
